@@ -178,8 +178,12 @@ func (k *Kernel) Send(c *nl.Conn, b []byte) error {
 		}
 		if k.autoLat > 0 {
 			switch r.Op {
-			case "add-create", "add-update", "del", "multi", "report", "get":
+			case "add-create", "add-update", "del", "report", "get":
 				time.Sleep(k.autoLat)
+			case "multi":
+				// the periodic server's query of a whole period group: slower, so that a
+				// tick in progress overlaps several requests of the event loop
+				time.Sleep(20 * k.autoLat)
 			}
 		}
 		k.amu.Lock()
